@@ -243,4 +243,281 @@ theorem framesFrom_alike (info₁ info₂ : Nat → Pipeline.Info) (prior : Expo
 
 end Alike
 
+-- ====================================================================== 3. the read loop, item by item
+section ReadLoop
+open TLX.Ingest
+
+/-- the loop body on one reader item that gets the tag `tag`: the main-loop item, and the frame's table entry -/
+def one (c : Bool) (tag : Nat) : Container.Item → Except Ingest.Err (Item Keylog.Key × Option Pipeline.Info)
+  | .dsb s =>
+    match decodeAscii s with
+    | .error e => .error e
+    | .ok str => .ok (.dsb (Keylog.getKeysFromString Keylog.srcHexClass str), none)
+  | .pkt t buf =>
+    if isMinusOne t then
+      match decodeAscii buf with
+      | .error e => .error e
+      | .ok str => .ok (.dsb (Keylog.getKeysFromString Keylog.srcHexClass str), none)
+    else
+      match framePkt c tag (Container.usOfFloat t.toFloat) buf with
+      | .error e => .error e
+      | .ok (p, i) => .ok (.frame p, some i)
+
+theorem go_cons (c : Bool) (tag : Nat) (it : Container.Item) (rest : List Container.Item) :
+    go Keylog.srcHexClass c tag (it :: rest) =
+      match one c tag it with
+      | .error e => .error e
+      | .ok (x, oi) =>
+        match go Keylog.srcHexClass c (tag + 1) rest with
+        | .error e => .error e
+        | .ok (xs, is) => .ok (x :: xs, (oi.map fun i => (tag, i)).toList ++ is) := by
+  cases it with
+  | dsb s =>
+    simp only [go, one]
+    cases decodeAscii s with
+    | error e => rfl
+    | ok str => simp only; cases go Keylog.srcHexClass c (tag + 1) rest <;> rfl
+  | pkt t buf =>
+    simp only [go, one]
+    by_cases hm : isMinusOne t = true
+    · simp only [hm, if_true]
+      cases decodeAscii buf with
+      | error e => rfl
+      | ok str => simp only; cases go Keylog.srcHexClass c (tag + 1) rest <;> rfl
+    · simp only [hm, Bool.false_eq_true, if_false]
+      cases framePkt c tag (Container.usOfFloat t.toFloat) buf with
+      | error e => rfl
+      | ok v => obtain ⟨p, i⟩ := v; simp only; cases go Keylog.srcHexClass c (tag + 1) rest <;> rfl
+
+/-- the tag only ends up in `Pkt.tag` -/
+theorem framePkt_tag_indep (c : Bool) (tag tag' us : Nat) (buf : Bytes) :
+    framePkt c tag' us buf = (framePkt c tag us buf).map fun v => ({ v.1 with tag := tag' }, v.2) := by
+  unfold framePkt
+  cases Dissect.dissect buf with
+  | error e => rfl
+  | ok d =>
+    cases d with
+    | notIp => rfl
+    | ip x =>
+      simp only
+      cases (if c then verdict x else .ok none) with
+      | error e => rfl
+      | ok v => simp only; cases x.l4 <;> rfl
+
+def setTag (tag' : Nat) : Item Keylog.Key → Item Keylog.Key
+  | .dsb k => .dsb k
+  | .frame p => .frame { p with tag := tag' }
+
+theorem one_tag_indep (c : Bool) (tag tag' : Nat) (it : Container.Item) :
+    one c tag' it = (one c tag it).map fun v => (setTag tag' v.1, v.2) := by
+  cases it with
+  | dsb s => simp only [one]; cases decodeAscii s <;> rfl
+  | pkt t buf =>
+    simp only [one]
+    by_cases hm : isMinusOne t = true
+    · simp only [hm, if_true]; cases decodeAscii buf <;> rfl
+    · simp only [hm, Bool.false_eq_true, if_false]
+      rw [framePkt_tag_indep c tag tag']
+      cases framePkt c tag (Container.usOfFloat t.toFloat) buf with
+      | error e => rfl
+      | ok v => rfl
+
+theorem one_frame_tag (c : Bool) (tag : Nat) (it : Container.Item) (p : Pkt) (oi : Option Pipeline.Info)
+    (h : one c tag it = .ok (.frame p, oi)) : p.tag = tag ∧ oi.isSome := by
+  cases it with
+  | dsb s =>
+    simp only [one] at h
+    cases hd : decodeAscii s with
+    | error e => rw [hd] at h; cases h
+    | ok str => rw [hd] at h; cases h
+  | pkt t buf =>
+    simp only [one] at h
+    by_cases hm : isMinusOne t = true
+    · simp only [hm, if_true] at h
+      cases hd : decodeAscii buf with
+      | error e => rw [hd] at h; cases h
+      | ok str => rw [hd] at h; cases h
+    · simp only [hm, Bool.false_eq_true, if_false] at h
+      cases hf : framePkt c tag (Container.usOfFloat t.toFloat) buf with
+      | error e => rw [hf] at h; cases h
+      | ok v =>
+        obtain ⟨q, i⟩ := v
+        rw [hf] at h
+        simp only [Except.ok.injEq, Prod.mk.injEq, Item.frame.injEq] at h
+        obtain ⟨rfl, rfl⟩ := h
+        exact ⟨Lemmas.ExportProps.framePkt_tag c tag _ buf q i hf, rfl⟩
+
+theorem one_dsb_none (c : Bool) (tag : Nat) (it : Container.Item) (k : List Keylog.Key) (oi : Option Pipeline.Info)
+    (h : one c tag it = .ok (.dsb k, oi)) : oi = none := by
+  cases it with
+  | dsb s =>
+    simp only [one] at h
+    cases hd : decodeAscii s with
+    | error e => rw [hd] at h; cases h
+    | ok str => rw [hd] at h; simp only [Except.ok.injEq, Prod.mk.injEq] at h; exact h.2.symm
+  | pkt t buf =>
+    simp only [one] at h
+    by_cases hm : isMinusOne t = true
+    · simp only [hm, if_true] at h
+      cases hd : decodeAscii buf with
+      | error e => rw [hd] at h; cases h
+      | ok str => rw [hd] at h; simp only [Except.ok.injEq, Prod.mk.injEq] at h; exact h.2.symm
+    · simp only [hm, Bool.false_eq_true, if_false] at h
+      cases hf : framePkt c tag (Container.usOfFloat t.toFloat) buf with
+      | error e => rw [hf] at h; cases h
+      | ok v => obtain ⟨q, i⟩ := v; rw [hf] at h; cases h
+
+/-- the frames the loop makes from tag `tag` on carry tags `≥ tag`, and so do the table's keys -/
+theorem go_tags_ge (c : Bool) (its : List Container.Item) :
+    ∀ tag X IS, go Keylog.srcHexClass c tag its = .ok (X, IS) →
+      (∀ p, Item.frame p ∈ X → tag ≤ p.tag) ∧ (∀ e ∈ IS, tag ≤ e.1) := by
+  induction its with
+  | nil =>
+    intro tag X IS h
+    simp only [go, Except.ok.injEq, Prod.mk.injEq] at h
+    obtain ⟨rfl, rfl⟩ := h
+    exact ⟨by simp, by simp⟩
+  | cons it rest ih =>
+    intro tag X IS h
+    rw [go_cons] at h
+    cases h1 : one c tag it with
+    | error e => rw [h1] at h; cases h
+    | ok v =>
+      obtain ⟨x, oi⟩ := v
+      rw [h1] at h
+      simp only at h
+      cases hg : go Keylog.srcHexClass c (tag + 1) rest with
+      | error e => rw [hg] at h; cases h
+      | ok w =>
+        obtain ⟨Xr, ISr⟩ := w
+        rw [hg] at h
+        simp only [Except.ok.injEq, Prod.mk.injEq] at h
+        obtain ⟨rfl, rfl⟩ := h
+        obtain ⟨i1, i2⟩ := ih (tag + 1) Xr ISr hg
+        constructor
+        · intro p hp
+          simp only [List.mem_cons] at hp
+          rcases hp with rfl | hp
+          · exact Nat.le_of_eq (one_frame_tag c tag it p oi h1).1.symm
+          · have := i1 p hp; omega
+        · intro e he
+          simp only [List.mem_append, Option.mem_toList, Option.mem_def, Option.map_eq_some_iff] at he
+          rcases he with ⟨i, _, rfl⟩ | he
+          · exact Nat.le_refl _
+          · have := i2 e he; omega
+
+theorem zip_alike_congr {a b a' b' : Nat → Pipeline.Info} {xs ys : List (Item Keylog.Key)}
+    (hz : Zip (Alike a b) xs ys) (ha : ∀ p, Item.frame p ∈ xs → a' p.tag = a p.tag)
+    (hb : ∀ q, Item.frame q ∈ ys → b' q.tag = b q.tag) : Zip (Alike a' b') xs ys := by
+  induction hz with
+  | nil => exact Zip.nil
+  | @cons x y xs ys hxy _ ih =>
+    refine Zip.cons ?_ (ih (fun p hp => ha p (by simp [hp])) (fun q hq => hb q (by simp [hq])))
+    cases x with
+    | dsb k₁ =>
+      cases y with
+      | dsb k₂ => exact hxy
+      | frame q => exact absurd hxy (by simp [Alike])
+    | frame p =>
+      cases y with
+      | dsb k => exact absurd hxy (by simp [Alike])
+      | frame q =>
+        obtain ⟨h1, h2⟩ : q = { p with tag := q.tag } ∧ b q.tag = a p.tag := hxy
+        exact ⟨h1, by rw [ha p (by simp), hb q (by simp), h2]⟩
+
+/-- the main-loop items that stem from the reader items `keep` keeps (the two lists are aligned: one item per item) -/
+def keptOf (keep : Container.Item → Bool) : List Container.Item → List (Item Keylog.Key) → List (Item Keylog.Key)
+  | it :: its, x :: xs => if keep it then x :: keptOf keep its xs else keptOf keep its xs
+  | _, _ => []
+
+theorem keptOf_sub (keep : Container.Item → Bool) (its : List Container.Item) :
+    ∀ (X : List (Item Keylog.Key)) x, x ∈ keptOf keep its X → x ∈ X := by
+  induction its with
+  | nil => intro X x hx; cases X <;> simp [keptOf] at hx
+  | cons it its ih =>
+    intro X x hx
+    cases X with
+    | nil => simp [keptOf] at hx
+    | cons y X =>
+      simp only [keptOf] at hx
+      split at hx
+      · simp only [List.mem_cons] at hx
+        rcases hx with rfl | hx
+        · simp
+        · exact List.mem_cons_of_mem _ (ih X x hx)
+      · exact List.mem_cons_of_mem _ (ih X x hx)
+
+/-- **The read loop on a capture from which reader items have been removed.** If the loop gets through the whole
+    capture, it gets through the reduced one (started at any tag), and what it makes of the kept items is the same up to
+    the tags, with tables that say the same about corresponding frames. -/
+theorem go_filter (c : Bool) (keep : Container.Item → Bool) (its : List Container.Item) :
+    ∀ tag tag' X IS, go Keylog.srcHexClass c tag its = .ok (X, IS) →
+      ∃ X' IS', go Keylog.srcHexClass c tag' (its.filter keep) = .ok (X', IS') ∧
+        Zip (Alike (lookup IS) (lookup IS')) (keptOf keep its X) X' := by
+  induction its with
+  | nil =>
+    intro tag tag' X IS h
+    simp only [go, Except.ok.injEq, Prod.mk.injEq] at h
+    obtain ⟨rfl, rfl⟩ := h
+    exact ⟨[], [], rfl, Zip.nil⟩
+  | cons it rest ih =>
+    intro tag tag' X IS h
+    rw [go_cons] at h
+    cases h1 : one c tag it with
+    | error e => rw [h1] at h; cases h
+    | ok v =>
+      obtain ⟨x, oi⟩ := v
+      rw [h1] at h
+      simp only at h
+      cases hg : go Keylog.srcHexClass c (tag + 1) rest with
+      | error e => rw [hg] at h; cases h
+      | ok w =>
+        obtain ⟨Xr, ISr⟩ := w
+        rw [hg] at h
+        simp only [Except.ok.injEq, Prod.mk.injEq] at h
+        obtain ⟨rfl, rfl⟩ := h
+        have hge := (go_tags_ge c rest (tag + 1) Xr ISr hg).1
+        -- the table of the whole run agrees with the table of its tail on the tail's frames
+        have hIS : ∀ p, Item.frame p ∈ Xr →
+            lookup ((oi.map fun i => (tag, i)).toList ++ ISr) p.tag = lookup ISr p.tag := by
+          intro p hp
+          have := hge p hp
+          cases oi with
+          | none => rfl
+          | some i => exact Lemmas.Export.lookup_cons_ne tag i ISr p.tag (by omega)
+        cases hk : keep it with
+        | false =>
+          obtain ⟨X', IS', g1, g2⟩ := ih (tag + 1) tag' Xr ISr hg
+          refine ⟨X', IS', by simp only [List.filter_cons, hk, Bool.false_eq_true, if_false, g1], ?_⟩
+          simp only [keptOf, hk, Bool.false_eq_true, if_false]
+          exact zip_alike_congr g2 (fun p hp => hIS p (keptOf_sub keep rest Xr _ hp)) (fun _ _ => rfl)
+        | true =>
+          obtain ⟨X', IS', g1, g2⟩ := ih (tag + 1) (tag' + 1) Xr ISr hg
+          have h1' := one_tag_indep c tag tag' it
+          rw [h1] at h1'
+          have hge' := (go_tags_ge c (rest.filter keep) (tag' + 1) X' IS' g1).1
+          have hIS' : ∀ q, Item.frame q ∈ X' →
+              lookup ((oi.map fun i => (tag', i)).toList ++ IS') q.tag = lookup IS' q.tag := by
+            intro q hq
+            have := hge' q hq
+            cases oi with
+            | none => rfl
+            | some i => exact Lemmas.Export.lookup_cons_ne tag' i IS' q.tag (by omega)
+          refine ⟨setTag tag' x :: X', (oi.map fun i => (tag', i)).toList ++ IS', ?_, ?_⟩
+          · simp only [List.filter_cons, hk, if_true]
+            rw [go_cons, h1']
+            simp only [Except.map, g1]
+          · simp only [keptOf, hk, if_true]
+            refine Zip.cons ?_ (zip_alike_congr g2 (fun p hp => hIS p (keptOf_sub keep rest Xr _ hp)) hIS')
+            cases x with
+            | dsb k => rfl
+            | frame p =>
+              obtain ⟨hpt, hsome⟩ := one_frame_tag c tag it p oi h1
+              obtain ⟨i, rfl⟩ := Option.isSome_iff_exists.mp hsome
+              refine ⟨rfl, ?_⟩
+              simp only [setTag, Option.map_some, Option.toList_some, List.singleton_append]
+              rw [Lemmas.Export.lookup_cons_eq, hpt, Lemmas.Export.lookup_cons_eq]
+
+end ReadLoop
+
 end TLX.Props.ExportInputs2
